@@ -1009,6 +1009,10 @@ def oracle_(case):
         if (ref < 0).any(): return None    # the clamp fired: the clause is about the unclamped extent
         return (f'isothermal: flows after the call {mol1.tolist()} are not those of the members applied one by one '
                 f'(each to the feed for parallel, to the running composition for series) {ref.tolist()}')
+    if flip_case(case) and hf_oracle(case, 'A') != hf_oracle(case, case.get('pkg', 'A')):
+        # the two packages were refreshed at different points of the edit history: the reaction's dH and the stream's Hf use
+        # different heats of formation, and the identity (one set of heats, C06_isothermal_object) has nothing to say
+        return None
     heat = sum(d * f for d, f in zip(dhs, fed))
     # sensible (and, for the stub, phase-independent) enthalpy of each species at T, from the implementation
     h = []
